@@ -15,6 +15,10 @@
  *   req <hex> <cuts|-> <keep|half|full>   one burst on the current (or a fresh) connection:
  *        cuts = ascending byte offsets at which the server's read() returns short;
  *        keep: peer stays open; half: shutdown(SHUT_WR) after the burst; full: close() after it
+ *        (end "reset": the read after the burst fails with ECONNRESET; 5th token "race": a second client
+ *        connects before the server looks at the burst, one rfbHttpCheckFds call handles both)
+ *   env <hexdesktop> <hexuser|none>   screen->desktopName and $USER
+ *   listener <4|6>                    which listener later connections use
  *   newconn                           a second client connects while the first is still open
  *   hangup                            client closes the current connection
  *   paint <hexbyte> <n>               fill n bytes of (dead) stack with a byte before the next req
@@ -86,7 +90,7 @@ int openat(int dfd, const char *path, int flags, ...) {
 
 /* read plan: sizes of the pieces in which the current burst is handed to the server */
 #define MAXPLAN 256
-static size_t plan[MAXPLAN]; static int nplan = 0, iplan = 0;
+static size_t plan[MAXPLAN]; static int nplan = 0, iplan = 0, inject_reset = 0;
 ssize_t read(int fd, void *buf, size_t count) {
   static ssize_t (*real)(int, void *, size_t);
   if (!real) real = (ssize_t (*)(int, void *, size_t))dlsym(RTLD_NEXT, "read");
@@ -98,6 +102,7 @@ ssize_t read(int fd, void *buf, size_t count) {
       if (r > 0) plan[iplan] -= (size_t)r;
       return r;
     }
+    if (inject_reset && count > 0) { errno = ECONNRESET; return -1; }   /* a read error other than EAGAIN */
   }
   return real(fd, buf, count);
 }
@@ -305,17 +310,35 @@ int main(void) {
       scr->httpEnableProxyConnect = atoi(tok[1]) ? TRUE : FALSE;
       scr->port = atoi(tok[2]);
       puts("ok");
+    } else if (!strcmp(tok[0], "env") && n == 3) {
+      /* desktop name and $USER as the substitution loop sees them ("none" = USER unset) */
+      static char desk[4096], usr[4096];
+      long k = vh_unhex(tok[1], (unsigned char *)desk, sizeof desk - 1);
+      if (k < 0 || memchr(desk, 0, (size_t)k)) { puts("bad-op"); goto next; }
+      desk[k] = 0; scr->desktopName = desk;
+      if (!strcmp(tok[2], "none")) unsetenv("USER");
+      else {
+        long m = vh_unhex(tok[2], (unsigned char *)usr, sizeof usr - 1);
+        if (m < 0 || memchr(usr, 0, (size_t)m)) { puts("bad-op"); goto next; }
+        usr[m] = 0; setenv("USER", usr, 1);
+      }
+      puts("ok");
+    } else if (!strcmp(tok[0], "listener") && n == 2) {
+      use6 = atoi(tok[1]) == 6;
+      puts("ok");
     } else if (!strcmp(tok[0], "paint") && n == 3) {
       /* applied right before the next request is processed */
       paint_byte = (int)strtol(tok[1], NULL, 16); paint_n = (size_t)atol(tok[2]);
       if (paint_n > (1 << 20)) { paint_n = 0; puts("bad-op"); goto next; }
       puts("ok");
-    } else if (!strcmp(tok[0], "req") && n == 4 && scr->httpDir) {
+    } else if (!strcmp(tok[0], "req") && (n == 4 || (n == 5 && !strcmp(tok[4], "race"))) && scr->httpDir) {
       long len = vh_unhex(tok[1], reqbuf, sizeof reqbuf);
-      int endk = !strcmp(tok[3], "keep") ? 0 : !strcmp(tok[3], "half") ? 1 : !strcmp(tok[3], "full") ? 2 : -1;
+      int endk = !strcmp(tok[3], "keep") ? 0 : !strcmp(tok[3], "half") ? 1 : !strcmp(tok[3], "full") ? 2 :
+                 !strcmp(tok[3], "reset") ? 3 : -1;
+      int race = n == 5, hc2 = -1;
       int gone, i, nc0, handed, full = 0;
       size_t prev = 0;
-      if (len < 0 || endk < 0) { puts("bad-op"); goto next; }
+      if (len < 0 || endk < 0 || (race && endk != 0)) { puts("bad-op"); goto next; }
       nplan = 0; iplan = 0;
       if (strcmp(tok[2], "-")) {
         char *p = tok[2];
@@ -340,10 +363,14 @@ int main(void) {
         if (off != (size_t)len) { puts("short-write"); goto next; } }
       if (endk == 1) shutdown(hc, SHUT_WR);
       if (endk == 2) { close(hc); hc = -1; full = 1; }
+      inject_reset = endk == 3;
+      /* race: a second client connects before the server has looked at this burst: one rfbHttpCheckFds
+         call sees input on the old connection AND a pending accept */
+      if (race) { hc2 = connect_unix(use6 ? lpath6 : lpath4); if (hc2 < 0) { puts("no-conn"); goto next; } }
       if (paint_n) { paint_stack(paint_byte, paint_n); paint_n = 0; }
       nc0 = newclients; vwait_us = 0; noplog = 0; logging = 1;
       rfbProcessEvents(scr, 0);
-      logging = 0; nplan = iplan = 0;
+      logging = 0; nplan = iplan = 0; inject_reset = 0;
       for (i = 0; i < 2; i++) rfbProcessEvents(scr, 0);
       gone = full ? 1 : http_drain();
       handed = newclients > nc0;
@@ -369,10 +396,16 @@ int main(void) {
             if (a < hout.n && b < hout.n) { putchar('P'); vh_puthex(stdout, hout.p + a + 1, b - a - 1); } else putchar('-');
           } }
       }
-      printf(" conn=%s", handed ? "handed" : (scr->httpSock == RFB_INVALID_SOCKET ? "closed" : "open"));
+      printf(" conn=%s", handed ? "handed" : race ? (gone ? "closed" : "open") :
+             (scr->httpSock == RFB_INVALID_SOCKET ? "closed" : "open"));
       printf(" peer=%s", full ? "-" : handed ? "open" : gone ? "eof" : "open");
       printf(" wait=%lld", vwait_us / 1000);
-      if (hc >= 0 && (gone || handed)) { close(hc); hc = -1; for (i = 0; i < 3; i++) rfbProcessEvents(scr, 0); }
+      if (race) {   /* the old connection is finished either way; the new one is the server's current one */
+        if (hc >= 0) close(hc);
+        hc = hc2;
+        for (i = 0; i < 3; i++) rfbProcessEvents(scr, 0);
+        printf(" new=%s", scr->httpSock == RFB_INVALID_SOCKET ? "closed" : "open");
+      } else if (hc >= 0 && (gone || handed)) { close(hc); hc = -1; for (i = 0; i < 3; i++) rfbProcessEvents(scr, 0); }
       printf(" rfb=%s\n", witness_served() ? "ok" : "dead");
     } else if (!strcmp(tok[0], "slowreq") && n == 2 && scr->httpDir) {
       /* a peer that sends a request and never reads the answer; the server's send buffer is minimal.
